@@ -491,11 +491,13 @@ def apply_pattern_rewrites(text, rules, log, where):
                 i = e
             else:
                 i += 1
-        if expect is not None and len(hits) != expect:
+        if expect == -1:
+            pass    # `x?`: any number of sites, also none (parameter threading that must not hide a removed call)
+        elif expect is not None and len(hits) != expect:
             raise ExtractError(
                 "%s: rewrite %s expected %s site(s) of `%s`, found %d"
                 % (where, rid, expect, before, len(hits)))
-        if not hits and expect is None:
+        elif not hits and expect is None:
             raise ExtractError("%s: rewrite %s matches nowhere: `%s`"
                                % (where, rid, before))
         for a, b, rep in reversed(hits):
